@@ -160,6 +160,11 @@ pub fn scenarios() -> Vec<Scn> {
     v.push(subj_scn(k, vec![vec![1, 2]], vec![Role::Late], Some(2), Some(4)));
     v.push(subj_scn(k, vec![vec![1, 2]], vec![Role::Leaving], Some(2), Some(4)));
     v.push(subj_scn(k, vec![vec![1, 2]], vec![Role::Resident, Role::Late, Role::Leaving], Some(1), Some(2)));
+    let (h0, h1) = two_hash_seeds();
+    for h in [h0, h1] {
+      v.push(with_seed(subj_scn(k, vec![vec![1, 2]], vec![Role::Resident, Role::Leaving], Some(2), Some(3)), h));
+      v.push(with_seed(subj_scn(k, vec![vec![1, 2]], vec![Role::Leaving, Role::Resident], None, Some(3)), h));
+    }
     v.push(subj_scn(k, vec![vec![1, 2], vec![3, 4]], vec![Role::Late], None, Some(3)));
     v.push(subj_scn(k, vec![vec![1, 2], vec![3, 4]], vec![Role::Late, Role::Leaving], None, Some(2)));
     v.push(subj_scn(k, vec![vec![1, 2, 3]], vec![Role::Late], None, Some(3)));
